@@ -118,7 +118,7 @@ func (r *c20run) fail(env *c20env, mon, key, detail string) {
 
 func c20newEnv(run *c20run, label string, once bool) *c20env {
 	api, _ := newAPI()
-	return &c20env{run: run, label: label, ds: dssync.MutexWrap(datastore.NewMapDatastore()),
+	return &c20env{run: run, label: label, ds: &c20FlakyDS{Datastore: dssync.MutexWrap(datastore.NewMapDatastore())},
 		keyIdx: map[string]int{}, pubHex: map[string]int{}, pubUnc: map[string]int{}, stored: map[string]int{},
 		recreate: map[string]bool{}, idents: map[string]*idp.Identity{}, identOf: map[string][2]int{},
 		identIn: map[string]int{}, once: once, api: api}
@@ -569,6 +569,8 @@ func (e *c20env) exec(o c20op, rng *rand.Rand) {
 		e.newInstance()
 	case "create":
 		e.insts[o.Inst].CreateKey(ctx, o.ID)
+	case "createfail":
+		e.createFail(o.Inst, o.ID)
 	case "get":
 		e.insts[o.Inst].GetKey(ctx, o.ID)
 	case "has":
@@ -586,6 +588,41 @@ func (e *c20env) exec(o c20op, rng *rand.Rand) {
 	default:
 		panic("c20: unknown op " + o.Op)
 	}
+}
+
+// c20FlakyDS: a datastore whose writes can be made to fail (full disk, locked repo)
+type c20FlakyDS struct {
+	datastore.Datastore
+	failPut bool
+}
+
+func (d *c20FlakyDS) Put(ctx context.Context, key datastore.Key, value []byte) error {
+	if d.failPut {
+		return fmt.Errorf("injected datastore write failure for %s", key)
+	}
+	return d.Datastore.Put(ctx, key, value)
+}
+
+// createFail: CreateKey for a never created id while the datastore refuses writes.  It must report
+// the error and leave no trace: the probes that follow (ordinary has/get operations, also compared
+// with the model, in which nothing was created) must find the id absent on every keystore.
+func (e *c20env) createFail(inst int, id string) {
+	ctx := context.Background()
+	if _, was := e.stored[id]; was {
+		return
+	}
+	fd := e.ds.(*c20FlakyDS)
+	fd.failPut = true
+	priv, err := e.insts[inst].real.CreateKey(ctx, id)
+	fd.failPut = false
+	e.run.evals++
+	e.run.classes["create-during-datastore-outage"] = struct{}{}
+	if err == nil && priv != nil {
+		e.run.fail(e, "failed-create-reports-error", "C20:createkey-succeeded-without-store", fmt.Sprintf("CreateKey(%q) on keystore %d returned a key although the datastore refused the write", id, inst))
+	}
+	e.insts[inst].HasKey(ctx, id)
+	e.insts[inst].GetKey(ctx, id)
+	e.insts[(inst+1)%len(e.insts)].HasKey(ctx, id)
 }
 
 func (e *c20env) coqCase() string {
@@ -670,6 +707,8 @@ func c20generate(e *c20env, p c20params, rng *rand.Rand) {
 			do(c20op{Op: "create", Inst: inst(), ID: k[rng.Intn(len(k))]})
 		case x < 42:
 			do(c20op{Op: "get", Inst: inst(), ID: pickID()})
+		case x == 42:
+			do(c20op{Op: "createfail", Inst: inst(), ID: fmt.Sprintf("id-%d", 700000+rng.Intn(1000))})
 		case x < 67:
 			do(c20op{Op: "has", Inst: inst(), ID: pickID()})
 		case x < 72 && len(e.insts) < p.maxInst:
